@@ -213,6 +213,22 @@ impl CounterMarker {
     }
 }
 
+#[cfg(rust_cc_verif)]
+impl CounterMarker {
+    #[inline]
+    pub(crate) fn verif_words(&self) -> (u16, u16) {
+        (self.tracing_counter.get(), self.counter.get())
+    }
+
+    #[inline]
+    pub(crate) fn verif_from_words(tracing_counter: u16, counter: u16) -> CounterMarker {
+        CounterMarker {
+            tracing_counter: Cell::new(tracing_counter),
+            counter: Cell::new(counter),
+        }
+    }
+}
+
 #[derive(Copy, Clone, Debug)]
 #[repr(u16)]
 pub(crate) enum Mark {
